@@ -352,6 +352,11 @@ func pauses(part, parts int) {
 
 func main() {
 	ctx = engine.Start("C04", "model_checking")
+	ls.OnViolation = func(sig, what string) {
+		if ctx.SigCount(sig) < 3 {
+			ctx.Violation(sig, map[string]interface{}{"kind": "wrapper", "what": what})
+		}
+	}
 	if ctx.ReplayPath != "" {
 		replay()
 		return
